@@ -891,6 +891,9 @@ func vScenarioC12(rc *runCtx) {
 		// that much for one announced chunk stays within what was negotiated; beyond it, it does not
 		budget += 2 << 30
 	}
+	// (total allocation is churn, not residency: a quarter on top, the oracle is after gigabytes on the strength of a
+	// number, not after a megabyte more or less per message)
+	budget += budget / 4
 	rc.res.Scenario["alloc_mb"] = alloc >> 20
 	if alloc > budget {
 		rc.violate("alloc", "C12:alloc:"+vEditSig(log), "the run allocated %d MiB although only %d KiB crossed the links (budget %d MiB); hostile edits: %v", alloc>>20, moved>>10, budget>>20, log)
